@@ -92,14 +92,25 @@ func Receive(frames []Frame, o RecvOpts) RecvExpect {
 		inf = NewInflater(o.Takeover)
 	}
 	var cur *Message
+	pongsAtStart := 0
+	// stopOpen records the unfinished message at the point the receiver stops.
+	stopOpen := func() {
+		if cur == nil {
+			return
+		}
+		ex.PartialOpen, ex.Partial, ex.PartialComp = true, cur.Raw, cur.Compressed
+		if cur.Compressed && !inf.PrefixOK(cur.Raw) {
+			// the fragments received so far are already malformed DEFLATE: a
+			// streaming receiver may have failed anywhere inside this message
+			ex.Unspecified = true
+			ex.UnspecifiedWhy = "malformed DEFLATE payload in an unfinished message"
+			ex.Pongs = ex.Pongs[:pongsAtStart]
+		}
+	}
 	viol := func(i int, s string, a ...any) RecvExpect {
 		ex.Violation = fmt.Sprintf(s, a...)
 		ex.ViolationFrame = i
-		if cur != nil {
-			ex.PartialOpen = true
-			ex.Partial = cur.Raw
-			ex.PartialComp = cur.Compressed
-		}
+		stopOpen()
 		return ex
 	}
 	for i, f := range frames {
@@ -107,9 +118,7 @@ func Receive(frames []Frame, o RecvOpts) RecvExpect {
 		if f.NonMinimal {
 			ex.Unspecified = true
 			ex.UnspecifiedWhy = "non-minimal length encoding"
-			if cur != nil {
-				ex.PartialOpen, ex.Partial, ex.PartialComp = true, cur.Raw, cur.Compressed
-			}
+			stopOpen()
 			return ex
 		}
 		if f.Rsv2 || f.Rsv3 {
@@ -134,6 +143,11 @@ func Receive(frames []Frame, o RecvOpts) RecvExpect {
 		if f.DeclaredLen != nil && *f.DeclaredLen&(1<<63) != 0 {
 			return viol(i, "64-bit length with top bit set")
 		}
+		if f.Truncated && f.IsControl() && (f.DeclaredLen == nil || *f.DeclaredLen <= 125) && f.Fin {
+			// stream ended inside a well-formed control frame: nothing happens
+			stopOpen()
+			return ex
+		}
 		if f.IsControl() {
 			if len(f.Payload) > 125 || (f.DeclaredLen != nil && *f.DeclaredLen > 125) {
 				return viol(i, "control frame longer than 125")
@@ -154,9 +168,7 @@ func Receive(frames []Frame, o RecvOpts) RecvExpect {
 				ex.ClosePay = f.Payload
 				ex.CloseCode = code
 				ex.CloseReason = reason
-				if cur != nil {
-					ex.PartialOpen, ex.Partial, ex.PartialComp = true, cur.Raw, cur.Compressed
-				}
+				stopOpen()
 				return ex
 			}
 			continue
@@ -167,6 +179,7 @@ func Receive(frames []Frame, o RecvOpts) RecvExpect {
 				return viol(i, "new data frame inside unfinished message")
 			}
 			cur = &Message{Type: f.Opcode, Compressed: f.Rsv1}
+			pongsAtStart = len(ex.Pongs)
 		case OpCont:
 			if cur == nil {
 				return viol(i, "continuation without open message")
@@ -174,12 +187,19 @@ func Receive(frames []Frame, o RecvOpts) RecvExpect {
 		}
 		cur.Raw = append(cur.Raw, f.Payload...)
 		cur.Frames++
+		if f.Truncated {
+			stopOpen()
+			return ex
+		}
 		if f.Fin {
 			if cur.Compressed {
 				out, err := inf.Message(cur.Raw, 1<<28)
 				if err != nil {
 					ex.Unspecified = true
 					ex.UnspecifiedWhy = "malformed DEFLATE payload: " + err.Error()
+					// a streaming inflater may fail anywhere inside the message, so
+					// Pings interleaved with its fragments need not have been seen
+					ex.Pongs = ex.Pongs[:pongsAtStart]
 					ex.PartialOpen, ex.Partial, ex.PartialComp = true, cur.Raw, true
 					return ex
 				}
@@ -191,8 +211,6 @@ func Receive(frames []Frame, o RecvOpts) RecvExpect {
 			cur = nil
 		}
 	}
-	if cur != nil {
-		ex.PartialOpen, ex.Partial, ex.PartialComp = true, cur.Raw, cur.Compressed
-	}
+	stopOpen()
 	return ex
 }
